@@ -1100,7 +1100,12 @@ def oracle(sql, nested_schema, dialect):
     s2 = q2.sql(dialect=dialect)
     if s1 != s2:
         clauses = set()
-        a, b = select_nodes(q1), select_nodes(q2)
+        # compare what the two TEXTS parse to (the first result's own tree can differ from its re-parsed text in
+        # associativity only, e.g. 2 + (a + b) printed as 2 + a + b, which is no difference between the passes)
+        try:
+            a, b = select_nodes(sqlglot.parse_one(s1, dialect=dialect)), select_nodes(sqlglot.parse_one(s2, dialect=dialect))
+        except Exception:  # noqa
+            a, b = select_nodes(q1), select_nodes(q2)
         if len(a) == len(b):
             for x, y in zip(a, b):
                 for k in set(x.args) | set(y.args):
